@@ -2,6 +2,8 @@ package main
 
 import (
 	"verif.local/harness/c13"
+	"verif.local/harness/c14"
+	"verif.local/harness/c18"
 	"verif.local/harness/simkit"
 )
 
@@ -9,6 +11,8 @@ type statser interface{ Stats() *simkit.Stats }
 
 var registry = map[string]func() simkit.Property{
 	"C13": func() simkit.Property { return c13.New() },
+	"C14": func() simkit.Property { return c14.New() },
+	"C18": func() simkit.Property { return c18.New() },
 }
 
 var instances = map[string]simkit.Property{}
